@@ -35,7 +35,7 @@ func (o Obligation) Key() string { return o.Rule + " :: " + o.Construct }
 type Rule struct {
 	ID    string
 	Doc   string
-	Floor int // minimum number of obligations this rule must enumerate
+	Floor int    // minimum number of obligations this rule must enumerate
 	Tier  string // "" = both tiers, "thorough" = thorough only
 	Run   func(r *Run)
 }
@@ -176,15 +176,52 @@ func CheckProperty(w *World, p *Property, tier string, known []KnownFinding) *Re
 		if rule.Tier == "thorough" && tier != "thorough" {
 			continue
 		}
-		run := &Run{W: w, Prop: p, Rule: rule, Stats: res.Stats, Tier: tier}
-		func() {
-			defer func() {
-				if x := recover(); x != nil {
-					run.add(SUnresolved, "analyzer panic", "-", fmt.Sprint(x))
-				}
+		exec := func(inline bool, only map[*FuncInfo]bool) *Run {
+			run := &Run{W: w, Prop: p, Rule: rule, Stats: res.Stats, Tier: tier}
+			w.Inline, w.InlineFor = inline, only
+			defer func() { w.Inline, w.InlineFor = false, nil }()
+			func() {
+				defer func() {
+					if x := recover(); x != nil {
+						run.add(SUnresolved, "analyzer panic", "-", fmt.Sprint(x))
+					}
+				}()
+				rule.Run(run)
 			}()
-			rule.Run(run)
-		}()
+			return run
+		}
+		bad := func(run *Run) bool {
+			if len(run.Obls) < rule.Floor {
+				return true
+			}
+			for _, o := range run.Obls {
+				if o.Status == SViolation || o.Status == SUnresolved {
+					return true
+				}
+			}
+			return false
+		}
+		run := exec(false, nil)
+		if bad(run) && os.Getenv("VERIF_NOINLINE") == "" {
+			// re-decide on the graphs with the package's unmentioned helpers
+			// spliced in (inline.go); the plain verdict stands unless every
+			// obligation is discharged there
+			again := exec(true, failingFuncs(w, res.Stats, run, rule.Floor))
+			if os.Getenv("VERIF_INLINE_DEBUG") != "" {
+				for _, o := range again.Obls {
+					if o.Status != SOK {
+						fmt.Fprintf(os.Stderr, "inline-run %s: %s @ %s: %s\n", o.Rule, o.Construct, o.Pos, o.Why)
+					}
+				}
+			}
+			if !bad(again) {
+				for i := range again.Obls {
+					again.Obls[i].Why += " [decided with the package's unnamed helpers inlined]"
+				}
+				res.Stats.Exceptions = append(res.Stats.Exceptions, rule.ID+": decided on the helper-inlined graphs (the plain graphs did not discharge it)")
+				run = again
+			}
+		}
 		if len(run.Obls) < rule.Floor {
 			res.FloorFails = append(res.FloorFails, fmt.Sprintf("%s: enumerated %d obligations, floor is %d (rule shrunk or anchors moved)", rule.ID, len(run.Obls), rule.Floor))
 		}
@@ -316,4 +353,44 @@ func (r *Result) WriteEvidence(dir string, seed int64, totalWall float64) error 
 		return err
 	}
 	return os.WriteFile(filepath.Join(dir, r.Prop.ID+".json"), b, 0o644)
+}
+
+// failingFuncs lists the analysed declared functions in which a failed
+// obligation of run lies (nil = cannot tell: all functions).
+func failingFuncs(w *World, st *Stats, run *Run, floor int) map[*FuncInfo]bool {
+	if len(run.Obls) < floor {
+		return nil
+	}
+	out := map[*FuncInfo]bool{}
+	for _, o := range run.Obls {
+		if o.Status != SViolation && o.Status != SUnresolved {
+			continue
+		}
+		i := strings.LastIndex(o.Pos, ":")
+		if i < 0 {
+			return nil
+		}
+		file := o.Pos[:i]
+		var line int
+		fmt.Sscanf(o.Pos[i+1:], "%d", &line)
+		found := false
+		for name := range st.Functions {
+			f := w.funcs[name]
+			if f == nil {
+				continue
+			}
+			for f.Encl != nil {
+				f = f.Encl
+			}
+			a, b := w.Fset.Position(f.Node().Pos()), w.Fset.Position(f.Node().End())
+			if strings.HasSuffix(a.Filename, "/"+file) && a.Line <= line && line <= b.Line {
+				out[f] = true
+				found = true
+			}
+		}
+		if !found {
+			return nil
+		}
+	}
+	return out
 }
